@@ -188,12 +188,13 @@ func c45() {
 	// every step in any case). Thorough: the same at lengths 8 and 9; 10^9 x 4 runs with
 	// Len as an operation would not fit the budget.
 	type space struct {
-		length  int
-		withLen bool
+		length    int
+		withLen   bool
+		canonical bool // only sequences in which keys first appear in the order 0,1,2 (all others are key renamings of these)
 	}
-	spaces := []space{{6, true}, {7, false}}
+	spaces := []space{{6, true, false}, {7, false, false}}
 	if !r.Quick() {
-		spaces = []space{{8, true}, {9, false}}
+		spaces = []space{{8, true, false}, {9, false, true}}
 	}
 	var notes []string
 	for _, sp := range spaces {
@@ -206,13 +207,13 @@ func c45() {
 		for i := 0; i < length; i++ {
 			total *= len(alphabet)
 		}
-		notes = append(notes, fmt.Sprintf("all %d sequences of exactly %d operations over an alphabet of %d operations ({Add,Get,Remove}x3 keys, Len as an operation: %v; every shorter sequence is a checked prefix), capacities 0..3", total, length, len(alphabet), sp.withLen))
+		notes = append(notes, fmt.Sprintf("all %d sequences of exactly %d operations over an alphabet of %d operations ({Add,Get,Remove}x3 keys, Len as an operation: %v; restricted to one representative per renaming of the keys: %v; every shorter sequence is a checked prefix), capacities 0..3", total, length, len(alphabet), sp.withLen, sp.canonical))
 		for w := 0; w < workers; w++ {
 			wg.Add(1)
 			go func(w int) {
 				defer wg.Done()
 				ops := make([]lruOp, length)
-				local := map[string]struct{}{}
+				local := map[int]struct{}{}
 				n := 0
 				var evs, rems int64
 				for idx := w; idx < total; idx += workers {
@@ -220,6 +221,23 @@ func c45() {
 					for i := length - 1; i >= 0; i-- {
 						ops[i] = alphabet[x%len(alphabet)]
 						x /= len(alphabet)
+					}
+					if sp.canonical {
+						next, ok := 0, true
+						for _, o := range ops {
+							if o.kind == 3 {
+								continue
+							}
+							if o.key > next {
+								ok = false
+								break
+							} else if o.key == next {
+								next++
+							}
+						}
+						if !ok {
+							continue
+						}
 					}
 					for capacity := 0; capacity <= 3; capacity++ {
 						var rule, what string
@@ -235,7 +253,7 @@ func c45() {
 								map[string]any{"capacity": capacity, "operations": opsText(ops), "disagreement": what})
 						}
 						if ev > 0 {
-							local[fmt.Sprintf("cap%d|ev%d|rm%d", capacity, ev, rm)] = struct{}{}
+							local[capacity*10000+ev*100+rm] = struct{}{}
 						}
 					}
 				}
@@ -245,7 +263,7 @@ func c45() {
 				r.Count("explicit_removals_observed", rems)
 				mu.Lock()
 				for k := range local {
-					sigs[k] = struct{}{}
+					sigs[fmt.Sprintf("cap%d|ev%d|rm%d", k/10000, k/100%100, k%100)] = struct{}{}
 				}
 				mu.Unlock()
 			}(w)
@@ -310,7 +328,6 @@ func c45() {
 	for k := range sigs {
 		r.Distinct(k)
 	}
-	r.Sample(map[string]any{"capacity": 2, "operations": "Add(0) Add(1) Get(0) Add(2) Remove(0) Len", "expected_eviction_log": "1=101 (capacity), 0=100 (explicit removal)"})
 	r.Assume("documented behaviour asserted: capacity 0 = unlimited; Add of an existing key updates and promotes without a callback; Remove of a present key invokes the callback; negative capacities are undocumented and not exercised")
 	r.Finish("exhaustive operation sequences of the tier's length over 3 keys for capacities 0..3 plus seeded random long sequences (up to 8 keys, capacities 0..6, with and without callback) run on the real cache and a slice model; every Get result, Len and the eviction-callback log (key=value, in order) compared after every step; non-trivial = at least one capacity eviction happened; distinct = distinct (capacity, evictions, removals) classes", 20)
 }
